@@ -20,10 +20,24 @@ import (
 // printerFamily: derivation family of the program currently handed to the callback of printerPrograms
 var printerFamily string
 
+// printerQuick: set by the quick tier of C05/C18
+var printerQuick bool
+
 // configsFor: generated words (family WG) only meet the options that act on words, redirections and assignments,
 // so they are printed under the 16 Configs that vary exactly those (each with the other options all off / all on).
 func configsFor(all []*printer.Config) []*printer.Config {
 	if printerFamily != "WG" {
+		if printerQuick {
+			// quick tier: the full factorial of the six structural options × {tab, 4 spaces}; the thorough tier
+			// adds {tab with Width 4 (ignored), 1 space}
+			out := make([]*printer.Config, len(all))
+			for m, c := range all {
+				if m&3 == 0 || m&3 == 3 {
+					out[m] = c
+				}
+			}
+			return out
+		}
 		return all
 	}
 	out := make([]*printer.Config, len(all)) // indexed like all; nil = not used
@@ -425,7 +439,7 @@ func c18Judge(w *W, src string, cmds []ast.Command, cfgs []*printer.Config, faul
 		}
 		// the (reflection based) deep comparison is done after the configs that select a different
 		// code path (every one that changes Then/Do/Case/Redir/Assign = every 4th) and after the last
-		if ci%4 == 3 || ci == len(cfgs)-1 || cfgs[ci+1] == nil {
+		if ci%4 == 3 || ci == len(cfgs)-1 || printerFamily == "WG" && cfgs[ci+1] == nil {
 			if after := dumpAST(cmds, true); after != before {
 				w.Violation("tree-modified", printCase{src, ci}, fmt.Sprintf("Fprint under %s (or one of the 3 configs before it) modified the tree parsed from %q\n before %s\n after  %s", configName(ci), src, before, after))
 				return
@@ -495,11 +509,12 @@ func init() {
 	register(&check{
 		id:    "C05",
 		level: "model_checking",
-		rule: "every program the parser accepts among all strings ≤ 4 (quick) / 5 (thorough) over a 32-symbol alphabet and the derivation sets D0–D2 (thorough: D3) in one-line and multi-line layout, each printed under all 256 Config combinations; " +
+		rule: "every program the parser accepts among all strings ≤ 4 (quick) / 5 (thorough) over a 32-symbol alphabet and the derivation sets D0–D2 (thorough: D3) in one-line and multi-line layout, each printed under 128 (quick: all 64 combinations of the six structural options × {tab, 4 spaces}) / all 256 Config combinations; " +
 			"identical outputs are parsed once; the re-parsed program must have the same semantic skeleton (`;`, newline and no separator coincide; here-document bodies byte for byte)",
 		assume: []string{"the original parse is the oracle (metamorphic); semantic skeleton = and-or lists with async flag, pipelines, commands, words and parts, redirections, here-document body/delimiter text"},
 		run: func(w *W) {
 			cfgs := allConfigs()
+			printerQuick = !w.thorough()
 			printerPrograms(w, func(src string, cmds []ast.Command) { c05Judge(w, src, cmds, configsFor(cfgs)) })
 		},
 		replay: func(raw json.RawMessage) error {
@@ -524,11 +539,12 @@ func init() {
 	register(&check{
 		id:    "C18",
 		level: "model_checking",
-		rule: "the programs of C05 × 256 Configs: print(parse(print(P))) == print(P), two prints of one tree are equal, a position-carrying dump of the tree (every field incl. Sep/SepPos) is identical before and after Fprint; " +
+		rule: "the programs of C05 × 128 (quick) / 256 Configs: print(parse(print(P))) == print(P), two prints of one tree are equal, a position-carrying dump of the tree (every field incl. Sep/SepPos) is identical before and after Fprint; " +
 			"writer faults: for every program and 3 Configs a writer that fails after k bytes for every k < output length must make Fprint return a non-nil error without panic and leave the tree unchanged",
 		assume: []string{"purity is judged on a reflection dump of every field of every node", "outputs that do not re-parse are C05's subject and skipped here"},
 		run: func(w *W) {
 			cfgs := allConfigs()
+			printerQuick = !w.thorough()
 			printerPrograms(w, func(src string, cmds []ast.Command) { c18Judge(w, src, cmds, configsFor(cfgs), true) })
 			// outputs larger than bufio's 4096-byte buffer
 			if w.Mine() {
